@@ -62,23 +62,40 @@ theorem chunk_rule_counterexample :
       (((chunkSpansWith 19 10 24).take 2).map fun c => (c.1, slice (List.range 24) c.2.1 c.2.2)) = .ok (none, [List.range 20]) := by
   refine ⟨by decide, by decide, by rfl, by rfl⟩
 
-/-- **Batches partition the log.**  One full send run (no wall-clock cut-off, no disconnect) from
-`nextIndex = first + p` terminates by itself, the entries carried by its batches are exactly
-`log[p..]` in order, each once; the wire messages are the renderings of the batches in order; every batch's
-prevLogIdx / prevLogTerm are those of the log entry before its first entry; `nextIndex` ends at `last + 1`;
-a batch is chunked only if its single command is at least a batch long. -/
+/-- **Batches partition the log (pipelined run).**  One full send run (no wall-clock cut-off, no disconnect) from
+`nextIndex = first + p` to a destination that has confirmed the entry before it (`matchIndex ≥ first + p - 1`,
+repair D62) terminates by itself, the entries carried by its batches are exactly `log[p..]` in order, each once;
+the wire messages are the renderings of the batches in order; every batch's prevLogIdx / prevLogTerm are those of
+the log entry before its first entry; `nextIndex` ends at `last + 1`; a batch is chunked only if its single command
+is at least a batch long. -/
 theorem batches_partition_log {first : Nat} {log : List Entry} {p B : Nat} (wf : WF first log p B)
-    (term commit : Nat) (snap : List (Option Bool)) :
-    ∃ r, sendOne ⟨B, term, commit, none⟩ log (first + p) snap none = .ok r ∧ r.spin = false ∧
+    (term commit : Nat) (snap : List (Option Bool)) (m : Nat) (hm : first + p - 1 ≤ m) :
+    ∃ r, sendOne ⟨B, term, commit, none, some m⟩ log (first + p) snap none = .ok r ∧ r.spin = false ∧
       r.next = first + log.length ∧
       r.batches.flatMap Batch.entries = log.drop p ∧
       r.msgs = r.batches.flatMap (render B term commit) ∧
-      PrevOK log first p r.batches ∧ ChunkOK B r.batches := by
+      PrevOK log first p r.batches ∧ ChunkOK B r.batches ∧ r.batches ≠ [] := by
   unfold sendOne sendFuel
-  obtain ⟨r, hr, h1, h2, h3, h4, _, h6, _, h8⟩ :=
-    sendLoop_partition wf.ne wf.idx ⟨B, term, commit, none⟩ rfl snap
-      (log.length + snap.length + 2 + 0 + 0) p true 0 wf.p1 wf.p2 (by simp; omega)
-  exact ⟨r, hr, h1, h2, h3, h4, h6, h8⟩
+  obtain ⟨r, hr, h1, h2, h3, h4, _, h6, _, h8, h9⟩ :=
+    sendLoop_partition wf.ne wf.idx ⟨B, term, commit, none, some m⟩ rfl snap
+      (log.length + snap.length + 2 + 0 + 0) p true 0 false wf.p1 wf.p2 (by simp; omega) (Or.inr ⟨m, rfl, hm⟩)
+  exact ⟨r, hr, h1, h2, h3, h4, h6, h8, h9 rfl⟩
+
+/-- **A probing run carries exactly the first batch (repair D62).**  To a destination that has NOT confirmed the
+entry before `nextIndex` (`matchIndex < first + p - 1`) one run sends exactly one batch — the entries
+`log[p .. p+|b|)` chosen by the byte budget (a single heartbeat when the destination is up to date) — rendered
+as before, with the right prev, and leaves `nextIndex` right after it. -/
+theorem probing_run_first_batch {first : Nat} {log : List Entry} {p B : Nat} (wf : WF first log p B)
+    (term commit : Nat) (snap : List (Option Bool)) (m : Nat) (hm : m < first + p - 1) :
+    ∃ r b, sendOne ⟨B, term, commit, none, some m⟩ log (first + p) snap none = .ok r ∧ r.spin = false ∧
+      r.batches = [b] ∧ b.entries = takeBytes B 0 (log.drop p) ∧ (∃ rest, log.drop p = b.entries ++ rest) ∧
+      r.next = first + p + b.entries.length ∧ r.msgs = render B term commit b ∧
+      PrevOK log first p [b] ∧ ChunkOK B [b] := by
+  unfold sendOne sendFuel
+  obtain ⟨r, b, hr, h1, h2, h3, h4, h5, h6, h7, h8⟩ :=
+    sendLoop_probe wf.ne wf.idx ⟨B, term, commit, none, some m⟩ rfl snap (m := m) rfl
+      (log.length + snap.length + 1) p 0 none wf.p1 wf.p2 hm
+  exact ⟨r, b, hr, h1, h2, h3, h8, h4, h5, h6, h7⟩
 
 example : WF 1 [⟨⟨.noop, 0, 1, 54⟩, 1, 0⟩, ⟨⟨.regular, 1, 40, 54⟩, 2, 1⟩, ⟨⟨.regular, 2, 250, 54⟩, 3, 1⟩] 1 100 :=
   ⟨by simp, by
@@ -90,44 +107,179 @@ example : WF 1 [⟨⟨.noop, 0, 1, 54⟩, 1, 0⟩, ⟨⟨.regular, 1, 40, 54⟩,
     | n + 3, he => simp at he, by omega, by simp, by omega, by
     intro e he; simp at he; rcases he with h | h | h <;> subst h <;> simp⟩
 
-/-- **Entry intact.**  A follower that holds the leader's log up to `nextIndex - 1` and consumes the messages of
-that run in order (regular batches and `start/process/finish` bursts) raises nothing and ends up with exactly the
-leader's log: every entry, whatever its size, arrives once and unchanged. -/
-theorem entry_intact {first : Nat} {log : List Entry} {p B : Nat} (wf : WF first log p B)
-    (cfg : Conf) (src term commit : Nat) (snap : List (Option Bool)) (s : Node) (hs : s.log = log.take p) :
-    ∃ r s' o, sendOne ⟨B, term, commit, none⟩ log (first + p) snap none = .ok r ∧
-      followerRun cfg src s r.msgs = .ok (s', o) ∧ s'.log = log := by
-  obtain ⟨r, hr, _, _, hents, hmsgs, hprev, hck⟩ := batches_partition_log wf term commit snap
-  obtain ⟨s', o, hrun, hlog⟩ :=
-    followerRunA_batches cfg src wf.ne wf.idx B term commit wf.batch wf.ovh r.batches p s [] wf.p1 wf.p2 hs hprev hck
-      (by simp [hents])
-  refine ⟨r, s', o, hr, ?_, ?_⟩
-  · unfold followerRun; rw [hmsgs]; exact hrun
-  · rw [hlog, hents]
-    have : p + (log.drop p).length = log.length := by simp; have := wf.p2; omega
-    rw [this, List.take_length]
+/-- **One run, whatever the destination's `matchIndex`, delivered intact.**  A follower that holds the leader's
+log up to `nextIndex - 1` and consumes the messages of one full run in order (regular batches and
+`start/process/finish` bursts) raises nothing and ends up with the leader's log up to the run's new `nextIndex - 1`
+(`p ≤ p'`, with progress when there was something to send; all of it, `p' = length`, when the destination had
+confirmed the preceding entry); the entries of the run's batches are exactly `log[p..p')`; its last
+acknowledgement is a success with `next_node_idx` = the leader's new `nextIndex`. -/
+theorem entry_intact_one_run {first : Nat} {log : List Entry} {p B : Nat} (wf : WF first log p B)
+    (cfg : Conf) (src term commit : Nat) (snap : List (Option Bool)) (m : Nat) (s : Node) (hs : s.log = log.take p) :
+    ∃ r s' o p', sendOne ⟨B, term, commit, none, some m⟩ log (first + p) snap none = .ok r ∧
+      followerRun cfg src s r.msgs = .ok (s', o) ∧ p ≤ p' ∧ p' ≤ log.length ∧ (p < log.length → p < p') ∧
+      r.next = first + p' ∧ s'.log = log.take p' ∧
+      r.batches.flatMap Batch.entries ++ log.drop p' = log.drop p ∧
+      ackNext o = some (first + p') ∧ (first + p - 1 ≤ m → p' = log.length) := by
+  have hp2 := wf.p2
+  by_cases hm : first + p - 1 ≤ m
+  · obtain ⟨r, hr, _, hnext, hents, hmsgs, hprev, hck, hnn⟩ := batches_partition_log wf term commit snap m hm
+    obtain ⟨s', o, hrun, hlog, _, hack⟩ :=
+      followerRunA_batches cfg src wf.ne wf.idx B term commit wf.batch wf.ovh r.batches p s [] wf.p1 wf.p2 hs hprev hck
+        (by simp [hents])
+    have hlen : p + (r.batches.flatMap Batch.entries).length = log.length := by rw [hents]; simp; omega
+    refine ⟨r, s', o, log.length, hr, ?_, hp2, Nat.le_refl _, fun h => h, hnext, ?_, ?_, ?_, fun _ => rfl⟩
+    · unfold followerRun; rw [hmsgs]; exact hrun
+    · rw [hlog, hlen]
+    · rw [hents]; simp
+    · have := hack hnn
+      rw [this]; congr 1; omega
+  · obtain ⟨r, b, hr, _, hbs, hbe, ⟨rest, hrest⟩, hnext, hmsgs, hprev, hck⟩ :=
+      probing_run_first_batch wf term commit snap m (by omega)
+    obtain ⟨s', o, hrun, hlog, _, hack⟩ :=
+      followerRunA_batches cfg src wf.ne wf.idx B term commit wf.batch wf.ovh [b] p s rest wf.p1 wf.p2 hs hprev hck
+        (by simpa using hrest)
+    have hle : p + b.entries.length ≤ log.length := by
+      have := congrArg List.length hrest
+      simp at this; omega
+    have hdrop : log.drop (p + b.entries.length) = rest := by
+      have h1 : List.drop b.entries.length (b.entries ++ rest) = rest := List.drop_left
+      rw [← hrest, List.drop_drop] at h1
+      exact h1
+    refine ⟨r, s', o, p + b.entries.length, hr, ?_, by omega, hle, ?_, by rw [hnext]; omega, ?_, ?_, ?_, fun h => absurd h hm⟩
+    · unfold followerRun
+      rw [hmsgs]
+      simpa using hrun
+    · intro hlt
+      have hne : takeBytes B 0 (log.drop p) ≠ [] := by
+        apply takeBytes_ne_nil
+        intro hd
+        have := congrArg List.length hd
+        simp at this; omega
+      rw [← hbe] at hne
+      have : 1 ≤ b.entries.length := List.length_pos_iff.mpr hne
+      omega
+    · simpa using hlog
+    · rw [hbs, hdrop]; simpa using hrest.symm
+    · have := hack (List.cons_ne_nil _ _)
+      rw [this]; simp; omega
 
-/-- **No exception (send / receive path).**  Under `WF` the full send run returns a value (no `IndexError`,
-`KeyError`, …) and so does the follower consuming it; holds in batched and unbatched mode alike (the
-unbatched mode only calls the same loop after each append). -/
+/-- **Entry intact (pipelined run).**  When the destination has confirmed the entry before `nextIndex`, the
+follower ends up with exactly the leader's log after ONE run: every entry, whatever its size, arrives once and
+unchanged. -/
+theorem entry_intact {first : Nat} {log : List Entry} {p B : Nat} (wf : WF first log p B)
+    (cfg : Conf) (src term commit : Nat) (snap : List (Option Bool)) (m : Nat) (hm : first + p - 1 ≤ m)
+    (s : Node) (hs : s.log = log.take p) :
+    ∃ r s' o, sendOne ⟨B, term, commit, none, some m⟩ log (first + p) snap none = .ok r ∧
+      followerRun cfg src s r.msgs = .ok (s', o) ∧ s'.log = log := by
+  obtain ⟨r, s', o, p', hr, hrun, _, _, _, _, hlog, _, _, hfull⟩ := entry_intact_one_run wf cfg src term commit snap m s hs
+  refine ⟨r, s', o, hr, hrun, ?_⟩
+  rw [hlog, hfull hm, List.take_length]
+
+/-- … once the destination is confirmed, any number `k ≥ 1` of further rounds delivers everything (the first of
+them) and then only heart-beats. -/
+theorem rounds_confirmed {first : Nat} {log : List Entry} {B : Nat} (cfg : Conf) (src term commit : Nat) :
+    ∀ (k p m : Nat) (s : Node), WF first log p B → first + p - 1 ≤ m → s.log = log.take p →
+      ∃ s' m' bs, deliverRounds cfg src ⟨B, term, commit, none, none⟩ log (k + 1) (first + p) m s =
+          .ok (s', first + log.length, m', bs) ∧
+        s'.log = log ∧ bs.flatMap Batch.entries = log.drop p ∧ first + log.length - 1 ≤ m' := by
+  intro k
+  induction k with
+  | zero =>
+    intro p m s wf hm hs
+    obtain ⟨r, s', o, p', hr, hrun, _, _, _, hnext, hlog, hents, hack, hfull⟩ :=
+      entry_intact_one_run wf cfg src term commit [] m s hs
+    have hp' := hfull hm
+    subst hp'
+    have hon : ∃ m1, onAck r.next m (some (first + log.length)) = (first + log.length, m1) ∧ first + log.length - 1 ≤ m1 := by
+      unfold onAck
+      simp only [hnext]
+      split
+      · exact ⟨_, rfl, Nat.le_refl _⟩
+      · exact ⟨m, rfl, by omega⟩
+    obtain ⟨m1, hon1, hm1⟩ := hon
+    rw [deliverRounds]
+    simp only [hr, hrun, hack, hon1, deliverRounds]
+    exact ⟨s', m1, r.batches ++ [], rfl, by rw [hlog, List.take_length], by simpa using hents, hm1⟩
+  | succ k ih =>
+    intro p m s wf hm hs
+    obtain ⟨r, s', o, p', hr, hrun, _, _, _, hnext, hlog, hents, hack, hfull⟩ :=
+      entry_intact_one_run wf cfg src term commit [] m s hs
+    have hp' := hfull hm
+    subst hp'
+    have hlen : 1 ≤ log.length := List.length_pos_iff.mpr wf.ne
+    have wf' : WF first log log.length B := ⟨wf.ne, wf.idx, hlen, Nat.le_refl _, wf.batch, wf.ovh⟩
+    have hon : ∃ m1, onAck r.next m (some (first + log.length)) = (first + log.length, m1) ∧ first + log.length - 1 ≤ m1 := by
+      unfold onAck
+      simp only [hnext]
+      split
+      · exact ⟨_, rfl, Nat.le_refl _⟩
+      · exact ⟨m, rfl, by omega⟩
+    obtain ⟨m1, hon1, hm1⟩ := hon
+    obtain ⟨s2, m2, bs, hrec, hlog2, hents2, hm2⟩ := ih log.length m1 s' wf' hm1 hlog
+    rw [deliverRounds]
+    simp only [hr, hrun, hack, hon1, hrec]
+    refine ⟨s2, m2, r.batches ++ bs, rfl, hlog2, ?_, hm2⟩
+    rw [List.flatMap_append, hents2]
+    exact hents
+
+/-- **Repeated runs deliver the whole suffix, in order, each entry once (repair D62: probe, then pipeline).**
+Whatever `matchIndex` the leader holds for the destination, `k ≥ 2` rounds of "one send run – the follower consumes
+it – the leader processes the acknowledgement" leave the follower with exactly the leader's log, `nextIndex` at
+`last + 1`, and the entries carried by all batches of all rounds, concatenated, are exactly `log[p..]`: in order,
+each once, none twice.  (So every replica still receives, hence executes, each command exactly once with equal
+arguments.) -/
+theorem rounds_deliver_all {first : Nat} {log : List Entry} {p B : Nat} (wf : WF first log p B)
+    (cfg : Conf) (src term commit : Nat) (k m : Nat) (s : Node) (hs : s.log = log.take p) :
+    ∃ s' m' bs, deliverRounds cfg src ⟨B, term, commit, none, none⟩ log (k + 2) (first + p) m s =
+        .ok (s', first + log.length, m', bs) ∧
+      s'.log = log ∧ bs.flatMap Batch.entries = log.drop p := by
+  obtain ⟨r, s1, o, p', hr, hrun, hpp, hp'n, _, hnext, hlog, hents, hack, _⟩ :=
+    entry_intact_one_run wf cfg src term commit [] m s hs
+  have wf' : WF first log p' B := ⟨wf.ne, wf.idx, by have := wf.p1; omega, hp'n, wf.batch, wf.ovh⟩
+  have hon : ∃ m1, onAck r.next m (some (first + p')) = (first + p', m1) ∧ first + p' - 1 ≤ m1 := by
+    unfold onAck
+    simp only [hnext]
+    split
+    · exact ⟨_, rfl, Nat.le_refl _⟩
+    · exact ⟨m, rfl, by omega⟩
+  obtain ⟨m1, hon1, hm1⟩ := hon
+  obtain ⟨s2, m2, bs, hrec, hlog2, hents2, _⟩ := rounds_confirmed cfg src term commit k p' m1 s1 wf' hm1 hlog
+  rw [deliverRounds]
+  simp only [hr, hrun, hack, hon1, hrec]
+  refine ⟨s2, m2, r.batches ++ bs, rfl, hlog2, ?_⟩
+  rw [List.flatMap_append, hents2]
+  exact hents
+
+/-- non-vacuity of the multi-round statement: a destination whose `matchIndex` is 0 (nothing confirmed) gets the
+three entries after the initial one in two rounds — one probing batch, then the pipelined rest -/
+example :
+    let log : List Entry := [⟨⟨.noop, 0, 1, 54⟩, 1, 0⟩, ⟨⟨.regular, 1, 40, 54⟩, 2, 1⟩, ⟨⟨.regular, 2, 70, 54⟩, 3, 1⟩,
+      ⟨⟨.regular, 3, 20, 54⟩, 4, 1⟩]
+    ∃ s' m' bs, deliverRounds {} 0 ⟨100, 1, 1, none, none⟩ log 2 (1 + 1) 0 { log := log.take 1 } = .ok (s', 5, m', bs) ∧
+      s'.log = log ∧ bs.map (fun b => b.entries.map (·.idx)) = [[2, 3], [4]] := ⟨_, _, _, rfl, rfl, rfl⟩
+
+/-- **No exception (send / receive path).**  Under `WF` a full send run returns a value (no `IndexError`,
+`KeyError`, …) for every `matchIndex` of the destination, and so does the follower consuming it; holds in batched
+and unbatched mode alike (the unbatched mode only calls the same loop after each append). -/
 theorem no_exception {first : Nat} {log : List Entry} {p B : Nat} (wf : WF first log p B)
-    (cfg : Conf) (src term commit : Nat) (snap : List (Option Bool)) (s : Node) (hs : s.log = log.take p) :
-    (∃ r, sendOne ⟨B, term, commit, none⟩ log (first + p) snap none = .ok r) ∧
-    (∀ r, sendOne ⟨B, term, commit, none⟩ log (first + p) snap none = .ok r →
+    (cfg : Conf) (src term commit : Nat) (snap : List (Option Bool)) (m : Nat) (s : Node) (hs : s.log = log.take p) :
+    (∃ r, sendOne ⟨B, term, commit, none, some m⟩ log (first + p) snap none = .ok r) ∧
+    (∀ r, sendOne ⟨B, term, commit, none, some m⟩ log (first + p) snap none = .ok r →
       ∃ res, followerRun cfg src s r.msgs = .ok res) := by
-  obtain ⟨r, s', o, hr, hrun, _⟩ := entry_intact wf cfg src term commit snap s hs
+  obtain ⟨r, s', o, _, hr, hrun, _⟩ := entry_intact_one_run wf cfg src term commit snap m s hs
   refine ⟨⟨r, hr⟩, ?_⟩
   intro r' hr'
   rw [hr] at hr'
   cases hr'
   exact ⟨_, hrun⟩
 
-/-- **No exception with any wall-clock cut-off and any disconnect point.**  In the regular region the send run
-returns a value whatever iteration budget the clock leaves and whichever `transport.send` call drops the node. -/
+/-- **No exception with any wall-clock cut-off, any disconnect point, any `matchIndex`.**  In the regular region
+the send run returns a value whatever iteration budget the clock leaves, whichever `transport.send` call drops the
+node and whether the run probes or pipelines. -/
 theorem no_exception_any_cutoff {first : Nat} {log : List Entry} {p B : Nat} (wf : WF first log p B)
-    (term commit : Nat) (snap : List (Option Bool)) (budget dropAfter : Option Nat) :
-    ∃ r, sendOne ⟨B, term, commit, dropAfter⟩ log (first + p) snap budget = .ok r := by
+    (term commit : Nat) (snap : List (Option Bool)) (budget dropAfter : Option Nat) (m : Nat) :
+    ∃ r, sendOne ⟨B, term, commit, dropAfter, some m⟩ log (first + p) snap budget = .ok r := by
   unfold sendOne
-  exact sendLoop_ok wf.ne wf.idx _ snap _ p true budget 0 wf.p1 wf.p2
+  exact sendLoop_ok wf.ne wf.idx _ snap _ p true budget 0 false wf.p1 wf.p2 (Or.inr rfl)
 
 end PSO.C11
